@@ -68,7 +68,7 @@ def plan(tier: str) -> dict:
     floors["applied:CheckerPass"] = 0  # structural models rarely satisfy the ONNX checker; its raising path is what is judged
     floors.update({"flag_false_judged": 300 if quick else 10000, "fixpoint_runs": 200 if quick else 8000,
                    "analysis_snapshots": 40 if quick else 1500, "faults_injected": 20 if quick else 800})
-    return {"cases": 1400 if quick else 40000, "shards": 16, "budget_s": 40 if quick else 560,
+    return {"cases": 2600 if quick else 60000, "shards": 16, "budget_s": 40 if quick else 560,
             "floors": floors, "min_nontrivial": 100}
 
 
